@@ -544,8 +544,9 @@ AdminCall(cd, blk, call) ==
            [ok |-> TRUE, val |-> 0, block |-> [h |-> call.h, t |-> call.t], codes |-> cd]
       [] call.k = "next_block" ->
            [ok |-> TRUE, val |-> 0, block |-> [h |-> blk.h + 1, t |-> blk.t + 5], codes |-> cd]
-      [] call.k = "advance" ->             \* update_block with a closure adding one block and call.dt seconds
-           [ok |-> TRUE, val |-> 0, block |-> [h |-> blk.h + 1, t |-> blk.t + call.dt], codes |-> cd]
+      [] call.k = "advance" ->             \* update_block with a closure adding one block and call.dt seconds, or
+                                           \* (via = "set") set_block with the SAME height and the new time
+           [ok |-> TRUE, val |-> 0, block |-> [h |-> IF call.via = "set" THEN blk.h ELSE blk.h + 1, t |-> blk.t + call.dt], codes |-> cd]
 
 IsAdmin(call) == call.k \in {"store_code", "store_code_with_id", "duplicate_code", "set_block", "next_block", "advance"}
 
